@@ -369,20 +369,24 @@ func scaled(f float64, emin int) *big.Int {
 // evaluation that subtracts the first vertex before multiplying
 // (|A| > 1e-9*S with S = sum of |products| relative to the first vertex, and
 // |A| > 2^-990 so that underflowing products cannot matter), and the number
-// of distinct vertices. All arithmetic is exact: the finite float64 inputs are
-// scaled by a common power of two to integers.
+// of distinct vertices (counted up to 3). All arithmetic is exact.
 func shoelace(ps []orb.Point) (sign int, robust bool, distinct int) {
-	seen := map[orb.Point]bool{}
-	for _, p := range ps {
-		seen[p] = true // +0 and -0 are the same key
-	}
-	distinct = len(seen)
+	sign, robust, _, distinct = shoelaceX(ps)
+	return
+}
+
+// shoelaceX additionally reports whether a float64 evaluation in vertex order
+// is EXACT: every coordinate is a multiple of 1/2 and every difference,
+// product and partial sum stays below 2^50, so no operation rounds. Then the
+// sign (zero included) must be the exact one, for any number of vertices.
+func shoelaceX(ps []orb.Point) (sign int, robust, exact bool, distinct int) {
+	distinct = distinctUpTo3(ps)
 	n := len(ps)
 	if n < 3 {
-		return 0, false, distinct
+		return 0, false, true, distinct
 	}
-	if sg, rb, ok := shoelaceInt(ps); ok {
-		return sg, rb, distinct
+	if sg, rb, ex, ok := shoelaceInt(ps); ok {
+		return sg, rb, ex, distinct
 	}
 	emin := 0
 	first := true
@@ -397,20 +401,17 @@ func shoelace(ps []orb.Point) (sign int, robust bool, distinct int) {
 		}
 	}
 	ox, oy := scaled(ps[0][0], emin), scaled(ps[0][1], emin)
-	xs := make([]*big.Int, n)
-	ys := make([]*big.Int, n)
-	for i, p := range ps {
-		xs[i] = scaled(p[0], emin)
-		xs[i].Sub(xs[i], ox)
-		ys[i] = scaled(p[1], emin)
-		ys[i].Sub(ys[i], oy)
-	}
 	area, sabs := new(big.Int), new(big.Int)
 	t1, t2 := new(big.Int), new(big.Int)
+	xi, yi, xj, yj := new(big.Int), new(big.Int), new(big.Int), new(big.Int)
 	for i := 0; i < n; i++ {
 		j := (i + 1) % n
-		t1.Mul(xs[i], ys[j])
-		t2.Mul(xs[j], ys[i])
+		xi.Sub(scaled(ps[i][0], emin), ox)
+		yi.Sub(scaled(ps[i][1], emin), oy)
+		xj.Sub(scaled(ps[j][0], emin), ox)
+		yj.Sub(scaled(ps[j][1], emin), oy)
+		t1.Mul(xi, yj)
+		t2.Mul(xj, yi)
 		area.Add(area, t1)
 		area.Sub(area, t2)
 		sabs.Add(sabs, t1.Abs(t1))
@@ -420,32 +421,72 @@ func shoelace(ps []orb.Point) (sign int, robust bool, distinct int) {
 	absA := new(big.Int).Abs(area)
 	lhs := new(big.Int).Mul(absA, big.NewInt(1000000000))
 	robust = lhs.Cmp(sabs) > 0 && absA.BitLen()+2*emin > -990
-	return sign, robust, distinct
+	return sign, robust, false, distinct
 }
 
-// shoelaceInt is the exact evaluation in int64 for lists of up to 4096
-// vertices whose coordinates are multiples of 1/2 with |v| <= 2^19 (doubled
-// coordinates < 2^21, differences < 2^22, products < 2^44, sums < 2^58).
-func shoelaceInt(ps []orb.Point) (sign int, robust bool, ok bool) {
+func distinctUpTo3(ps []orb.Point) int {
+	var seen [3]orb.Point
+	k := 0
+	for _, p := range ps {
+		dup := false
+		for i := 0; i < k; i++ {
+			if seen[i] == p { // +0 == -0
+				dup = true
+			}
+		}
+		if !dup {
+			seen[k] = p
+			k++
+			if k == 3 {
+				break
+			}
+		}
+	}
+	return k
+}
+
+// shoelaceInt is the exact evaluation in int64 for lists whose coordinates
+// are multiples of 1/2 with |v| <= 2^28 (doubled coordinates < 2^29,
+// differences < 2^30, products < 2^60); it gives up (ok = false) when a
+// partial sum leaves +-2^61. Quantities are in units of 1/4.
+func shoelaceInt(ps []orb.Point) (sign int, robust, exact, ok bool) {
 	n := len(ps)
-	if n > 4096 || !halfLattice(ps) {
-		return 0, false, false
+	for _, p := range ps {
+		for i := 0; i < 2; i++ {
+			v := p[i] * 2
+			if v != math.Trunc(v) || math.Abs(p[i]) > 1<<28 {
+				return 0, false, false, false
+			}
+		}
 	}
 	ox, oy := int64(ps[0][0]*2), int64(ps[0][1]*2)
-	var area, sabs int64
+	var area, maxMag int64
+	sabs := 0.0
 	abs := func(v int64) int64 {
 		if v < 0 {
 			return -v
 		}
 		return v
 	}
+	note := func(v int64) {
+		if a := abs(v); a > maxMag {
+			maxMag = a
+		}
+	}
 	for i := 0; i < n; i++ {
 		j := (i + 1) % n
 		xi, yi := int64(ps[i][0]*2)-ox, int64(ps[i][1]*2)-oy
 		xj, yj := int64(ps[j][0]*2)-ox, int64(ps[j][1]*2)-oy
 		t1, t2 := xi*yj, xj*yi
+		note(t1)
+		note(t2)
+		note(t1 - t2)
 		area += t1 - t2
-		sabs += abs(t1) + abs(t2)
+		note(area)
+		if abs(area) > 1<<61 {
+			return 0, false, false, false
+		}
+		sabs += float64(abs(t1)) + float64(abs(t2))
 	}
 	switch {
 	case area > 0:
@@ -453,7 +494,7 @@ func shoelaceInt(ps []orb.Point) (sign int, robust bool, ok bool) {
 	case area < 0:
 		sign = -1
 	}
-	return sign, float64(abs(area))*1e9 > float64(sabs), true
+	return sign, float64(abs(area))*1e9 > sabs, maxMag < 1<<52, true
 }
 
 // halfLattice: every coordinate is a multiple of 1/2 with |v| <= 2^19, so the
